@@ -1,6 +1,6 @@
 package pilosa
 
-// C26 — typed comparison of pql calls (copy of the comparison half of harness/pkg/pql/c26_gen_test.go for package pilosa;
+// C26 — typed comparison of pql calls (copy of the comparison half of harness/pkg/pql/gp_pqlgen_test.go for package pilosa;
 // generated from it, keep in sync).
 
 import (
